@@ -40,7 +40,16 @@ def case_strategy(profile):
     if profile.get("close", False):
         ops.append(st.fixed_dictionaries({"t": tm, "who": who, "op": st.just("close"), "code": st.sampled_from([0, 0x100, 7]), "reason": st.sampled_from(["", "bye", "x" * 300])}))
         ops.append(st.fixed_dictionaries({"t": tm, "who": st.just("c"), "op": st.just("blackout")}))
-    script = st.lists(st.one_of(*ops), min_size=profile.get("min_ops", 3), max_size=profile.get("max_ops", 10)).map(lambda xs: sorted(xs, key=lambda o: o["t"]))
+    # two writes on the same stream shortly after each other (the second often empty with the end marker): separate frames in
+    # separate datagrams that the network can reorder
+    pair = st.tuples(tm, who, st.integers(0, 3), st.sampled_from([1, 100, 1200, 5000]), st.sampled_from([0, 0, 0, 1, 100]), st.sampled_from([0.0002, 0.002, 0.02, 0.1]), st.booleans()).map(
+        lambda t: [
+            {"t": t[0], "who": t[1], "op": "write", "stream": t[2], "n": t[3], "fin": False},
+            {"t": round(t[0] + t[5], 4), "who": t[1], "op": "write", "stream": t[2], "n": t[4], "fin": t[6] or t[4] == 0},
+        ]
+    )
+    single = st.one_of(*ops).map(lambda o: [o])
+    script = st.lists(st.one_of(single, single, single, pair), min_size=profile.get("min_ops", 3), max_size=profile.get("max_ops", 10)).map(lambda xs: sorted([o for g in xs for o in g], key=lambda o: o["t"]))
     delay = st.one_of(st.floats(0.0, 0.3), st.floats(0.0, 0.02), st.floats(0.3, 1.0)).map(lambda f: round(f, 4))
     kinds = ["deliver"] * 11 + ["drop"] * 4 + (["dup"] * 3 if profile.get("dup", True) else []) + ["deliver"] * 2
     if profile.get("lossless"):
